@@ -192,110 +192,40 @@ def predicate(c, o):
     return None
 
 
+PROP = "C08"
+CRATE = "rs-core"
+IMPORTS = ["Packed", "Packed_tie"]
 PROFILES = ["dev", "release"]
+CHANNEL = "C08 channel: rs-core (Packed) vs coq/Packed.v via Packed_tie.v"
+RULE = ("cases = generated field sequences (fill to 63 bits, overflow by one, zero widths, widths >= 64, random; "
+        "80% from EMPTY, 20% from random words), LSB conversions, bits_for, single pop/push on boundary (2^k, 2^k+-1, extremes), "
+        "structured ((2x+1)<<t) and uniform words, each run in the dev and release profile; distinct = distinct case tuples; "
+        "non-trivial = not an empty field sequence")
+TRUSTED = ["modelled, not verified: usize::trailing_zeros/leading_zeros (tz_aux / Z.log2), NonZero, shifts (Z.shiftl/shiftr with explicit mod 2^64)"]
+ASSUME = ["64-bit usize", "push_lsb is called with value < 2^bits (its documented precondition / debug_assert)"]
 
 
-def impl_outputs(cases):
-    """run the implementation (both profiles); returns {profile: [obs]} or raises"""
-    res = {}
-    for prof in PROFILES:
-        b, out = cargo_build("rs-core", prof)
-        if b is None:
-            raise BuildError(out)
-        rc, lines, err = run_lines(b, [rust_line(c) for c in cases])
-        if rc != 0 or len(lines) != len(cases):
-            raise BuildError("rs-core %s run failed rc=%s: %s" % (prof, rc, err[-1000:]))
-        res[prof] = [json.loads(x) for x in lines]
-    return res
+def cases_for(rng, tier):
+    return gen_cases(rng, 1500 if tier == "quick" else 60000)
 
 
-class BuildError(Exception):
-    pass
+def search_cases(seed):
+    return gen_cases(random.Random(seed + 7919), 20000)
+
+
+def parse_case(text):
+    case = text.split()
+    if case[0] == "pseq":
+        nums = [int(x) for x in case[2:]]
+        return ("pseq", int(case[1]), list(zip(nums[0::2], nums[1::2])))
+    return tuple([case[0]] + [int(x) for x in case[1:]])
 
 
 def run(chk):
-    n = 1500 if chk.tier == "quick" else 60000
-    chk.cov["trusted_base"] = TRUSTED_COMMON + [
-        "modelled, not verified: usize::trailing_zeros/leading_zeros (tz_aux / Z.log2), NonZero, shifts (Z.shiftl/shiftr with explicit mod 2^64)"]
-    chk.assumptions = ["64-bit usize", "push_lsb is called with value < 2^bits (its documented precondition / debug_assert)"]
-    a = stage_a("C08", None)
-    chk.add_stage_a(a)
-    cases = gen_cases(chk.rng, n)
-    chk.cov["rule"] = ("cases = generated field sequences (fill to 63 bits, overflow by one, zero widths, widths >= 64, random; "
-                       "80% from EMPTY, 20% from random words), LSB conversions, bits_for, single pop/push on boundary (2^k, 2^k+-1, extremes), "
-                       "structured ((2x+1)<<t) and uniform words, each run in the dev and release profile; distinct = distinct case tuples; "
-                       "non-trivial = not an empty field sequence")
-    tie_broken = None
-    outs = None
-    try:
-        outs = impl_outputs(cases)
-    except BuildError as e:
-        tie_broken = dict(kind="harness-build-or-run-failed", detail=str(e)[-3000:])
-    mism = []
-    if outs:
-        evals = [(model_expr(c), outs[p][i]) for p in PROFILES for i, c in enumerate(cases)]
-        mm, err = coq_eval_cases("C08", ["Packed", "Packed_tie"], evals)
-        if err:
-            tie_broken = dict(kind="model-evaluation-failed", detail=err)
-        mism = [(PROFILES[k // len(cases)], k % len(cases), v) for k, v in mm]
-        chk.cov["evaluations"] = len(evals)
-        chk.cov["traces_validated_against_impl"] = len(evals) - len(mm)
-        chk.cov["distinct_nontrivial"] = len({json.dumps(c) for c in cases if nontrivial(c)})
-        chk.cov["disagreements"] = len(mism)
-        kinds = {}
-        for c in cases:
-            kinds[c[0]] = kinds.get(c[0], 0) + 1
-        chk.cov["case_kinds"] = kinds
-        chk.cov["samples"] = [dict(case=rust_line(c), impl=outs["dev"][i]) for i, c in enumerate(cases[:3] + cases[-3:])] + \
-            [dict(pinned_theorem=t) for t in a["theorems"][:6]]
-    # Stage C: the property itself on the implementation's outputs
-    broken = (not a["ok"]) or tie_broken or mism
-    found = []
-    if outs:
-        for p in PROFILES:
-            for i, c in enumerate(cases):
-                why = predicate(c, outs[p][i])
-                if why:
-                    found.append((p, c, outs[p][i], why))
-    if broken and not found and outs:
-        # targeted search with a larger budget
-        extra = gen_cases(random.Random(chk.seed + 7919), 20000)
-        try:
-            o2 = impl_outputs(extra)
-            for p in PROFILES:
-                for i, c in enumerate(extra):
-                    why = predicate(c, o2[p][i])
-                    if why:
-                        found.append((p, c, o2[p][i], why))
-        except BuildError:
-            pass
-    if found:
-        p, c, o, why = min(found, key=lambda f: len(json.dumps(f[1])))
-        chk.violation(dict(property="C08", kind="failing-input", profile=p, case=rust_line(c), implementation_returned=o,
-                           property_requires=why, how_to_replay="./check C08 --replay <this file>",
-                           other_failing_cases=len(found) - 1), True)
-    elif broken:
-        detail = dict(property="C08", kind="no-failing-input-found",
-                      stage_a_failures=a["failures"], tie=tie_broken,
-                      correspondence="C08 channel: rs-core (Packed) vs coq/Packed.v via Packed_tie.v",
-                      first_disagreements=[dict(profile=p, case=rust_line(cases[i]), implementation=outs[p][i], model=v)
-                                           for p, i, v in mism[:5]] if outs else [])
-        chk.violation(detail, False)
+    import sys
+    run_core_prop(chk, sys.modules[__name__])
 
 
 def replay(chk, rep):
-    case = rep["case"].split()
-    if case[0] == "pseq":
-        nums = [int(x) for x in case[2:]]
-        c = ("pseq", int(case[1]), list(zip(nums[0::2], nums[1::2])))
-    else:
-        c = tuple([case[0]] + [int(x) for x in case[1:]])
-    outs = impl_outputs([c])
-    bad = False
-    for p in PROFILES:
-        why = predicate(c, outs[p][0])
-        print("replay %s [%s]: implementation returned %s -> %s" % (rust_line(c), p, outs[p][0], why or "property holds"))
-        bad |= bool(why)
-    if bad:
-        print("VIOLATION property=C08 replay=%s" % rep.get("_path", "replay"))
-    return 1 if bad else 0
+    import sys
+    return replay_core_prop(chk, sys.modules[__name__], rep)
